@@ -625,7 +625,7 @@ pub fn record_wide_circuits(n: usize, r: &mut rand::rngs::StdRng, tr: &mut Tr, m
     use rand::Rng;
     let al = Alphabet { pp: false, ..Alphabet::unitary() };
     for i in 0..n {
-        let nq = if maxq > 6 && i % 4 == 3 { 7 } else { 6 };
+        let nq = if maxq > 6 && i % 5 == 4 { 7 } else { 6 }; // every fifth: the big ones land on different shards
         let len = r.random_range(2..=7usize);
         let mut gs = random_circuit(r, nq, len, &al);
         // always a Hadamard-type gate on the first, the last or a middle qubit
